@@ -128,6 +128,8 @@ class C07(Harness):
         # no scoring given: the documented default is the symmetric mean absolute percentage error (the library's real
         # metric code runs; positive observations and forecasts keep it defined)
         out.append({"name": "sliding-refit-k2-noX-default-scoring", "kind": "sliding", "strategy": "refit", "K": 2, "withX": False, "N": min(b["n_max"], 5), "default_scoring": True, "cost": 3})
+        # the first time point is recorded twice (a non-decreasing index is accepted): windows go by position
+        out.append({"name": "expanding-refit-k1-X-tie", "kind": "expanding", "strategy": "refit", "K": 1, "withX": True, "N": min(b["n_max"], 5), "tie_first": True, "cost": 2})
         for sk, strat in (("expanding", "update"), ("sliding", "refit")):
             out.append({"name": "%s-%s-k1-X-origin" % (sk, strat), "kind": sk, "strategy": strat, "K": 1, "withX": True, "N": min(b["n_max"], 5), "origin": 3, "cost": 2})
         return out
@@ -163,6 +165,11 @@ class C07(Harness):
         inp["fh"] = hs
         if cell["withX"]:
             inp["x"] = fresh_reals(ctx, "x", nn)
+        if cell.get("tie_first"):
+            ctx.assume(n >= 3)
+            ctx.assume(inp["wl"] >= 2)  # (both recordings of the first time point lie in every training window)
+            inp.update(return_data=False, prefitted=False, nan_last=False, fail_second=False, range_index=False, tie_first=True)
+            return inp
         if cell.get("default_scoring"):
             for v in inp["y"]:
                 ctx.assume(v > 0)
@@ -187,7 +194,9 @@ class C07(Harness):
         sp = W.load(SPLIT)
         n, s0 = inp["n"], inp["s0"]
         g = inp["g"]
-        if inp["range_index"]:
+        if inp.get("tie_first"):
+            idx = pd.Index([s0] + [s0 + g * i for i in range(n - 1)])
+        elif inp["range_index"]:
             idx = pd.RangeIndex(s0, s0 + n)
         else:
             idx = pd.Index([s0 + g * i for i in range(n)])
@@ -241,6 +250,8 @@ class C07(Harness):
         n, s0, y, fh = inp["n"], inp["s0"], inp["y"], inp["fh"]
         g = inp["g"]
         lab_of = lambda p: s0 + g * (int(p) if P.sym else p)  # noqa: E731  label of position p (positions are path-determined integers)
+        if inp.get("tie_first"):
+            lab_of = lambda p: s0 + g * max((int(p) if P.sym else p) - 1, 0)  # noqa: E731  (positions 0 and 1 carry the same label)
         hK = fh[-1]
         if cell["kind"] == "single":
             fits = True
